@@ -35,7 +35,7 @@ ASSUMPTIONS = [
     "numeric model is the oracle (C01); central differences with step 1e-6*scale, tolerance 1e-5",
     "a simulator that falls back (no Jacobian, warning logged) is accepted by the statement and counted separately",
 ]
-N = {"quick": 150, "thorough": 2500}
+N = {"quick": 150, "thorough": 30000}
 MIN_NONTRIVIAL = {"quick": 40, "thorough": 800}
 CASE_TIMEOUT = 600
 
